@@ -26,6 +26,9 @@ def one(name):
             env = dict(os.environ, VERIF_REPO=mut, TERM="xterm-256color", LC_ALL="C.UTF-8")
             p = subprocess.run(f"./check {pid} --tier quick", cwd=VERIF, env=env, shell=True, capture_output=True, text=True, timeout=1800)
             row[pid] = p.returncode
+            if p.returncode not in (0, 1) or (ONLY_OWN and p.returncode != 1):
+                os.makedirs("/tmp/matrix_out", exist_ok=True)
+                open(f"/tmp/matrix_out/{name}_{pid}.txt", "w").write(p.stdout[-6000:] + p.stderr[-3000:])
         return name, row
     finally:
         shutil.rmtree(tmp, ignore_errors=True)
